@@ -100,6 +100,19 @@ class ChangesDoc(P):
         raise NotImplementedError
 
 
+class ChangesDocNestedMeta(ChangesDoc):
+    """as ChangesDoc, with a third META field W holding a NESTED block (what `META:` / `  W:` / `    a::1` reads as: a dict) and a
+    fourth, L, holding a list value object - values the request does not name and that are not scalars"""
+
+    def make(self, I, name):
+        d = super().make(I, name)
+        m = d.fields["meta"]
+        nested = SDict({"a": atom(I, f"{name}.wa"), "b": None}, False)
+        lv = SObj("ListValue", {"items": SList([atom(I, f"{name}.l1")], False), "tokens": None}, fresh_obj=False, name=f"{name}.L")
+        m.entries = {"X": m.entries["X"], "W": nested, "L": lv, "Y": m.entries["Y"]}
+        return d
+
+
 class OneChange(P):
     """changes = {K: <op>} with a symbolic top-level key K (not META / META.x)"""
 
@@ -223,6 +236,26 @@ def meta_changes_contract(kind):
             return secs_same and list(e.keys()) == ["X", "Z"] and str(e["X"]) == "nx" and str(e["Z"]) == "nz"
 
     return FunctionContract(W, "WriteTool._apply_changes", {"self": Obj("WriteTool", W), "doc": ChangesDoc(), "changes": MetaChange(kind)}, {f"META_request[{kind}]": post}, inline_depth=6,
+                            setup=lambda I: setattr(I, "recursion_ok", {f"{W}:_normalize_value_for_ast"}))
+
+
+def meta_changes_nested_contract(kind):
+    """unmentioned META fields whose values are NOT scalars (a nested block = dict, a list value) keep the value they
+    had, unconverted (a dict stays that dict, a list value that list value): a META request never re-normalises, copies or rewrites what it does not name"""
+
+    def post(a, r):
+        e = r.fields["meta"].entries
+        w, lst = e.get("W"), e.get("L")
+        same = (isinstance(w, SDict) and list(w.entries.keys()) == ["a", "b"] and str(w.entries["a"]).endswith("wa") and w.entries["b"] is None
+                and isinstance(lst, SObj) and lst.cls == "ListValue" and str(lst.name).endswith(".L") and len(lst.fields["items"].items) == 1 and str(lst.fields["items"].items[0]).endswith("l1"))
+        if kind == "dot_set":
+            return same and list(e.keys()) == ["X", "W", "L", "Y"] and str(e["X"]) == "nx"
+        if kind == "dot_new":
+            return same and list(e.keys()) == ["X", "W", "L", "Y", "Z"]
+        if kind == "merge":
+            return same and list(e.keys()) == ["X", "W", "L", "Z"] and str(e["X"]) == "nx" and str(e["Z"]) == "nz"
+
+    return FunctionContract(W, "WriteTool._apply_changes", {"self": Obj("WriteTool", W), "doc": ChangesDocNestedMeta(), "changes": MetaChange(kind)}, {f"META_request[{kind}]_keeps_unnamed_nested_values_identical": post}, inline_depth=6,
                             setup=lambda I: setattr(I, "recursion_ok", {f"{W}:_normalize_value_for_ast"}))
 
 
